@@ -36,9 +36,13 @@ val f64res_rect : (coq_Z -> 'a1) -> 'a1 -> f64res -> 'a1
 
 val f64res_rec : (coq_Z -> 'a1) -> 'a1 -> f64res -> 'a1
 
+val round_rat : coq_Z -> coq_Z -> coq_Z -> coq_Z -> f64res
+
 val round_pos : coq_Z -> coq_Z -> f64res
 
 val round_f64 : decimal -> f64res
+
+val narrow_f32 : coq_Z -> coq_Z option
 
 type numclass =
 | CU64 of coq_Z
